@@ -5,7 +5,7 @@ from functools import lru_cache
 from returns.functions import raise_exception
 
 from ..expression import parse_assignment
-from ..format import parse_format
+from ..format import Format, parse_format
 from ..problem import Problem, make_problem
 from ..tensor import Tensor
 from ._tensor_method import BackendCompiler, TensorMethod
@@ -32,9 +32,16 @@ def tensor_method(
     return cachable_tensor_method(problem, backend)
 
 
+def formats_of_inputs(inputs: dict[str, Tensor]) -> dict[str, Format]:
+    for name, tensor in inputs.items():
+        if not isinstance(tensor, Tensor):
+            raise TypeError(f"Argument {name} must be a Tensor not {type(tensor)}")
+    return {name: tensor.format for name, tensor in inputs.items()}
+
+
 def evaluate_cffi(assignment: str, output_format: str, **inputs: Tensor) -> Tensor:
     parsed_assignment = parse_assignment(assignment).alt(raise_exception).unwrap()
-    input_formats = {name: tensor.format for name, tensor in inputs.items()}
+    input_formats = formats_of_inputs(inputs)
     parsed_output_format = parse_format(output_format).alt(raise_exception).unwrap()
 
     formats = {parsed_assignment.target.name: parsed_output_format} | input_formats
@@ -48,7 +55,7 @@ def evaluate_cffi(assignment: str, output_format: str, **inputs: Tensor) -> Tens
 
 def evaluate_tensora(assignment: str, output_format: str, **inputs: Tensor) -> Tensor:
     parsed_assignment = parse_assignment(assignment).alt(raise_exception).unwrap()
-    input_formats = {name: tensor.format for name, tensor in inputs.items()}
+    input_formats = formats_of_inputs(inputs)
     parsed_output_format = parse_format(output_format).alt(raise_exception).unwrap()
 
     formats = {parsed_assignment.target.name: parsed_output_format} | input_formats
